@@ -304,7 +304,9 @@ RecvResults(s, m) ==
   THEN IF ~Plaintext(m) \/ Dev("Epoch0AppData")
        THEN {Res([s EXCEPT !.appGot = s.appGot + 1], <<>>)}
        ELSE {Res(s, <<>>)}                                               \* plaintext ApplicationData: never
-  ELSE IF Plaintext(m) /\ s.keys # NoMaster /\ m.ms >= s.recvSeq /\ ~Dev("Epoch0HandshakeAfterKeys")
+  ELSE IF /\ Plaintext(m) /\ s.keys # NoMaster /\ m.ms >= s.recvSeq /\ ~Dev("Epoch0HandshakeAfterKeys")
+          /\ ~(ClientAuth /\ s.role = "S" /\ m.t = "CV")    \* (with client authentication the CertificateVerify
+                                                            \*  legitimately follows the ClientKeyExchange in clear)
   THEN {Res(s, <<>>)}        \* once keys exist only the protected Finished may advance or fail the handshake
   ELSE HsResults(s, m)
 
